@@ -26,6 +26,7 @@ import (
 	"context"
 	"fmt"
 	"math"
+	"sort"
 
 	v1 "k8s.io/api/core/v1"
 	"k8s.io/apimachinery/pkg/api/equality"
@@ -196,11 +197,20 @@ func (pp *proportionPlugin) OnSessionOpen(ssn *framework.Session) {
 		metrics.UpdateQueueInqueue(queueInfo.Name, 0, 0, map[v1.ResourceName]float64{})
 	}
 
+	// The shares are float64 sums over the queues: visit the queues in a fixed order, so that the
+	// result does not depend on Go's map iteration order.
+	queueIDs := make([]api.QueueID, 0, len(pp.queueOpts))
+	for queueID := range pp.queueOpts {
+		queueIDs = append(queueIDs, queueID)
+	}
+	sort.Slice(queueIDs, func(i, j int) bool { return queueIDs[i] < queueIDs[j] })
+
 	remaining := pp.totalResource.Clone()
 	meet := map[api.QueueID]struct{}{}
 	for {
 		totalWeight := int32(0)
-		for _, attr := range pp.queueOpts {
+		for _, queueID := range queueIDs {
+			attr := pp.queueOpts[queueID]
 			if _, found := meet[attr.queueID]; found {
 				continue
 			}
@@ -219,7 +229,8 @@ func (pp *proportionPlugin) OnSessionOpen(ssn *framework.Session) {
 		// decreasedDeserved is the decreased value for attr.deserved of processed queues
 		increasedDeserved := api.EmptyResource()
 		decreasedDeserved := api.EmptyResource()
-		for _, attr := range pp.queueOpts {
+		for _, queueID := range queueIDs {
+			attr := pp.queueOpts[queueID]
 			klog.V(4).Infof("Considering Queue <%s>: weight <%d>, total weight <%d>.",
 				attr.name, attr.weight, totalWeight)
 			if _, found := meet[attr.queueID]; found {
